@@ -32,14 +32,44 @@ Definition s_event (e : event) : sexp :=
   | EvBuild k g i => Lst [Num 3; sN k; snat g; snat i]
   end.
 
-Fixpoint run_steps (t : labels) (st : kstate) (ls : list (list N)) : list sexp :=
+(* ------------------------------------------------------------ shaped rows (mode 20) *)
+(** which of the top-level nodes of a row of the given shape are visible (text / element; [false] =
+    comment: the marker of an inner keyed list or Vec, the placeholder of [()] / [None]), in mount
+    order.  Shapes: see harness/dom/src/c11.rs. *)
+Fixpoint shape_nodes (fuel : nat) (s : sexp) : list bool :=
+  match fuel with
+  | 0 => [true]
+  | S f =>
+      let kids := flat_map (shape_nodes f) (tl (as_list s)) in
+      match as_Z (nth_s 0 s) with
+      | 1%Z => [false]
+      | 3%Z | 9%Z | 10%Z => kids
+      | 4%Z | 5%Z => kids ++ [false]
+      | 6%Z => match tl (as_list s) with [] => [false] | _ => kids end
+      | 7%Z | 8%Z => shape_nodes f (nth_s 2 s)
+      | _ => [true]
+      end
+  end.
+
+Definition shape_of (shapes : list (list bool)) (k : N) : list bool :=
+  nth (N.to_nat (N.modulo k (N.of_nat (length shapes)))) shapes [true].
+
+(** labels of a shaped row: node [j] is [(key gen j)] if visible, a comment otherwise *)
+Definition shaped_labels (shapes : list (list bool)) (it : item) : labels :=
+  map (fun jn => (snd jn,
+                  if nth (fst jn) (shape_of shapes (it_key it)) true
+                  then (Z.of_N (it_key it), Z.of_nat (it_gen it), Z.of_nat (fst jn))
+                  else ((-3)%Z, 0%Z, 0%Z)))
+      (enumerate_from 0 (it_nodes it)).
+
+Fixpoint run_steps (lab : item -> labels) (t : labels) (st : kstate) (ls : list (list N)) : list sexp :=
   match ls with
   | [] => []
   | l :: rest =>
       let '(st', log, p) := rebuild st l in
       if p then [Lst [Num (-9)]] else
-      let t' := t ++ flat_map item_labels (ks_items st') in
-      Lst [s_children t' (ks_dom st) (ks_dom st'); Lst (map s_event log)] :: run_steps t' st' rest
+      let t' := t ++ flat_map lab (ks_items st') in
+      Lst [s_children t' (ks_dom st) (ks_dom st'); Lst (map s_event log)] :: run_steps lab t' st' rest
   end.
 
 (* ------------------------------------------------------------ leptos <For> / <ForEnumerate> *)
@@ -120,7 +150,10 @@ Definition run_for (enumerate : bool) (c : sexp) : sexp :=
 Definition run_C11 (c : sexp) : sexp :=
   if Z.eqb (as_Z (nth_s 0 c)) 11 then run_for false c else
   if Z.eqb (as_Z (nth_s 0 c)) 12 then run_for true c else
-  let m := as_nat (nth_s 0 c) in
+  let shaped := Z.eqb (as_Z (nth_s 0 c)) 20 in
+  let shapes := map (shape_nodes 40) (as_list (nth_s 4 c)) in
+  let bld := if shaped then var_bld (fun k => length (shape_of shapes k)) else fixed_bld (as_nat (nth_s 0 c)) in
+  let lab := if shaped then shaped_labels shapes else item_labels in
   let npre := as_nat (nth_s 1 c) in
   let npost := as_nat (nth_s 2 c) in
   let ls := map (fun l => map as_N (as_list l)) (as_list (nth_s 3 c)) in
@@ -131,8 +164,8 @@ Definition run_C11 (c : sexp) : sexp :=
   match ls with
   | [] => Lst []
   | l0 :: rest =>
-      let '(st, log) := build_mount (fixed_bld m) (pre ++ post) (hd_error post) (N.of_nat (npre + npost)) l0 in
-      let t := t0 ++ [(ks_marker st, ((-3)%Z, 0%Z, 0%Z))] ++ flat_map item_labels (ks_items st) in
+      let '(st, log) := build_mount bld (pre ++ post) (hd_error post) (N.of_nat (npre + npost)) l0 in
+      let t := t0 ++ [(ks_marker st, ((-3)%Z, 0%Z, 0%Z))] ++ flat_map lab (ks_items st) in
       Lst (Lst [s_children t (pre ++ post) (ks_dom st); Lst (map s_event log)]
-           :: run_steps t st rest)
+           :: run_steps lab t st rest)
   end.
